@@ -243,6 +243,20 @@ class Tr:
                         isinstance(sl.upper, ast.UnaryOp) and sl.upper.operand.value == 1:
                     return ('(removelast %s)' % a, ta)
             raise TErr('subscript ' + ast.unparse(n))
+        if isinstance(n, ast.ListComp):
+            if len(n.generators) != 1 or n.generators[0].ifs or n.generators[0].is_async or \
+                    not isinstance(n.generators[0].target, ast.Name):
+                raise TErr('list comprehension shape')
+            it, ti = self.ex(n.generators[0].iter)
+            if not (isinstance(ti, tuple) and ti[0] == 'list'):
+                raise TErr('comprehension over %s' % (ti,))
+            v = n.generators[0].target.id
+            cv = v + '_' if (self.spec.state and v == self.spec.state[0]) else v
+            saved = dict(self.vars)
+            self.vars[v] = (cv, ti[1])
+            body, tb = self.ex(n.elt)
+            self.vars = saved
+            return ('(map (fun %s => %s) %s)' % (cv, body, it), ('list', tb))
         if isinstance(n, ast.Call):
             return self.call(n)
         raise TErr('expression node ' + type(n).__name__ + ': ' + ast.unparse(n))
@@ -313,6 +327,12 @@ class Tr:
             if ta == 'Z':
                 return (a, 'Z')
             return ('(ntrunc %s)' % a, 'Z')
+        if d == 'math.ceil' and len(n.args) == 1 and isinstance(n.args[0], ast.BinOp) and isinstance(n.args[0].op, ast.Div):
+            a, ta = self.ex(n.args[0].left)
+            b, tb = self.ex(n.args[0].right)
+            if ta == 'Z' and tb == 'Z':
+                return ('(zceil_div %s %s)' % (a, b), 'Z')
+            raise TErr('math.ceil of a non-integer quotient')
         if d in ('min', 'max') and len(n.args) == 2:
             a, ta = self.ex(n.args[0])
             b, tb = self.ex(n.args[1])
@@ -441,6 +461,11 @@ class Tr:
                 raise TErr('multiple assignment targets')
             tg = st.targets[0]
             return self.with_effects(st.value, lambda e: self.assign(tg, *self.ex(e), cont))
+        if isinstance(st, ast.Expr) and isinstance(st.value, ast.Yield) and '__yield__' in sp.calls:
+            fake = ast.Call(func=ast.Name(id='__yield__', ctx=ast.Load()), args=[st.value.value], keywords=[])
+            return self.with_effects(fake, lambda e: cont())
+        if isinstance(st, ast.Continue) and sp.consts.get('__continue_is_return__'):
+            return self.ret_val('tt')
         if isinstance(st, ast.Expr) and isinstance(st.value, ast.Call):
             cd = dotted(st.value.func)
             if cd in sp.stmt_methods:
@@ -627,6 +652,12 @@ class Tr:
                 if d_ in tr.spec.attrs and isinstance(tr.spec.attrs[d_][0], tuple) and tr.spec.attrs[d_][0][0] == 'list' \
                         and isinstance(node.slice, ast.Constant) and node.slice.value == 0:
                     return s2.note(node, {'idem': True})
+                if isinstance(node.value, ast.Name) and node.value.id in tr.vars and isinstance(tr.vars[node.value.id][1], tuple) \
+                        and tr.vars[node.value.id][1][0] == 'list' and tr.spec.mode != 'pure':
+                    sl = node.slice
+                    if (isinstance(sl, ast.Constant) and sl.value == 0) or \
+                            (isinstance(sl, ast.UnaryOp) and isinstance(sl.op, ast.USub) and isinstance(sl.operand, ast.Constant) and sl.operand.value == 1):
+                        return s2.note(node, {'idem': True})
                 return s2.generic_visit(node)
 
             def visit_Attribute(s2, node):
@@ -651,6 +682,13 @@ class Tr:
     def effect(self, call, k):
         """effectful call: kind 'res' : args -> result ret ;  kind 'prim': state -> args -> result (state*ret)"""
         sp = self.spec
+        if isinstance(call, ast.Subscript) and isinstance(call.value, ast.Name):
+            lv, lt = self.vars[call.value.id]
+            fn = 'lget0' if isinstance(call.slice, ast.Constant) else 'lgetlast'
+            r = self.fresh('r')
+            if sp.mode == 'state':
+                return '(bindr (%s %s) %s (fun %s =>\n %s))' % (fn, lv, sp.state[0], r, k(r, lt[1]))
+            return '(bind (%s %s) (fun %s =>\n %s))' % (fn, lv, r, k(r, lt[1]))
         if isinstance(call, ast.Subscript):
             at, getter, _ = sp.attrs[dotted(call.value)]
             r = self.fresh('r')
